@@ -47,7 +47,7 @@ def main(tier, seed):
     chk.set('rule',
             'one evaluation = one NLModel written by NLSolver::LoadModel (C++ API; C API for the capi subset), read back '
             'by mp::ReadNLFile into mp::Problem and judged against the caller\'s data through the reported permutation '
-            '(bounds, integrality, objective at all 3^n points of {-1,0,2}^n, rows, header class counts, block order, '
+            '(bounds, integrality, objective at all 3^n points of {-1,0,2}^n (read back and through NLModel::ComputeObjValue), rows, header class counts, block order, '
             'warm starts, suffixes, .col/.row), followed by 5 reference .sol files (primal/dual presence patterns, all '
             'suffix kinds) through NLSolver::ReadSolution + NLModel::ComputeObjValue. Core space (column-type vector x '
             'Hessian support x declared format [x duplicated entry]) is enumerated jointly; the other dimensions by all '
